@@ -278,7 +278,7 @@ def runOp (st : DSt) (ws0 : List String) : Option (DSt × List String) :=
   | "md5" :: pieces => do
       let ps ← pieces.mapM bytesOfHex
       let spec := Md5.digestSplit Spec.md5Params ps
-      let whole := Md5.digest Spec.md5Params ps.flatten
+      let whole := Spec.md5 ps.flatten      -- RFC 1321 written independently (C19_md5_eq_spec)
       let m := Md5.digestSplit Md5.gen ps
       let total := ps.flatten.length
       pure (st, [s!"B md5-pieces{min ps.length 9} md5-len-mod64-{if total % 64 < 56 then "lt56" else "ge56"}{if ps.any (·.isEmpty) then " md5-empty-piece" else ""}{if ps.any (·.length ≥ 64) then " md5-multiblock-piece" else ""}",
@@ -295,15 +295,15 @@ def runOp (st : DSt) (ws0 : List String) : Option (DSt × List String) :=
   -- ---------------------------------------------------------------- AES
   | ["aes.enc", k, b] => do
       let k ← block16? k; let b ← block16? b
-      let spec := Aes.cipher Spec.aesTables k b; let m := Aes.cipher Aes.gen k b
+      let spec := Spec.aesCipher k b; let m := Aes.cipher Aes.gen k b      -- FIPS-197 (C19_aes_eq_spec)
       pure (st, [withRef ref (hexOfBytes spec) s!"P aes.enc {hexOfBytes spec}"] ++ (if m = spec then [] else ["P model-disagrees-with-spec aes.enc " ++ hexOfBytes m]))
   | ["aes.dec", k, b] => do
       let k ← block16? k; let b ← block16? b
-      let spec := Aes.invCipher Spec.aesTables k b; let m := Aes.invCipher Aes.gen k b
+      let spec := Spec.aesInvCipher k b; let m := Aes.invCipher Aes.gen k b
       pure (st, [withRef ref (hexOfBytes spec) s!"P aes.dec {hexOfBytes spec}"] ++ (if m = spec then [] else ["P model-disagrees-with-spec aes.dec " ++ hexOfBytes m]))
   | ["aes.rt", k, b] => do
       let k ← block16? k; let b ← block16? b
-      let good := Aes.invCipher Spec.aesTables k (Aes.cipher Spec.aesTables k b) = b
+      let good := Spec.aesInvCipher k (Spec.aesCipher k b) = b
       pure (st, [if good then "P aes.rt ok" else "P aes.rt MODEL-FAILS"])
   | _ => none
 
